@@ -137,6 +137,10 @@ def c11(A, ctx, tier):
     misc.r_grppair(A, ctx, dict(floor=5))
     plumb.r_fitsets(A, ctx, dict(floor=3))
     plumb.r_weights_guard(A, ctx, dict(floor=6))
+    # estimators' path() and warm-started fit() solve the documented problem only from a model fit that
+    # belongs to the coefficients they start from (the problem solved is the one `Xw` says, not the one X says)
+    warm.r_path(A, ctx, dict(floor=8))
+    warm.r_warmfit(A, ctx, dict(floor=5))
     matrix.r_spec(A, ctx, dict(floor=150))
     ctx.assume("stationarity of the fitted coefficients is C01's business; the "
                "docstring-formula <-> class correspondence is not decided")
@@ -157,6 +161,7 @@ def c12(A, ctx, tier):
     plumb.r_squeeze(A, ctx, dict(floor=25))
     ctx.assume("probability normalisation/monotonicity (sklearn mix-ins, softmax) are "
                "runtime behaviour and not decided")
+    warm.r_warmfit(A, ctx, dict(floor=5))
     return dict(explanation="one-vs-rest assembly gathers every fitted attribute from the "
                 "per-class binary fits; encoded class indices are never compared with raw "
                 "labels", trusted_base=TB)
@@ -220,6 +225,9 @@ def c13(A, ctx, tier):
     extents.r_likedtype(A, ctx, dict(floor=20))
     misc.r_wscut(A, ctx, dict(floor=1))
     ctx.assume("accepted cells returning finite certified values is numerical (C01/C19)")
+    # an accepted composition must not fail inside compiled code: the datafit accessors every accepted
+    # cell calls (Lipschitz constants, gradients; dense and CSC) stay inside their arrays on tall and wide designs
+    kernels.r_accessor_eq(A, ctx, dict(floor=40), rule="R-ACCESSOR-BOUNDS")
     return dict(explanation="every cell of the solver x datafit x penalty x storage x knob "
                 "matrix is classified statically: refused by validation, or accepted with "
                 "every slot call / attribute read of compiled code resolving to a real member "
